@@ -228,7 +228,13 @@ func c10Gen(c *engine.C) engine.Case {
 	src := jg.Print(cls, layout)
 	files := []FileSpec{{Path: "src/Big.java", Content: src}}
 	// a file analysed after it that declares neither a class nor an interface: nothing is to be reported for it
-	switch engine.PickTag(c, "file-without-class-after-it", "none", "enum-with-getter", "package-info", "annotation-type") {
+	switch engine.PickTag(c, "file-without-class-after-it", "none", "enum-with-getter", "package-info", "annotation-type", "zero-bytes", "blank-lines-only", "comments-only") {
+	case "zero-bytes":
+		files = append(files, FileSpec{Path: "src/Empty.java", Content: ""})
+	case "blank-lines-only":
+		files = append(files, FileSpec{Path: "src/Empty.java", Content: "\n  \n\t\n"})
+	case "comments-only":
+		files = append(files, FileSpec{Path: "src/Empty.java", Content: "// nothing declared here\n/* yet */\n"})
 	case "enum-with-getter":
 		files = append(files, FileSpec{Path: "src/Colour.java", Content: "package p;\n\npublic enum Colour {\n    RED, GREEN;\n\n    private int code;\n\n    public int getCode() {\n        return code;\n    }\n}\n"})
 	case "package-info":
